@@ -130,7 +130,7 @@ func (s *Sys) New() core.Instance {
 	if s.Radius {
 		a := radiusServer()
 		rc, err := bngradius.NewClient(bngradius.ClientConfig{Servers: []bngradius.ServerConfig{{Host: "127.0.0.1", Port: a.Port, Secret: secret}}, NASID: "verif",
-			Timeout: 60 * time.Millisecond, Retries: 1}, zap.NewNop())
+			Timeout: 250 * time.Millisecond, Retries: 1}, zap.NewNop())
 		if err != nil {
 			panic(err)
 		}
